@@ -10,6 +10,7 @@ CONSTANTS
   SeekMax = 3
   Ops = TRUE
   Hints = {1, 2}
+  Faults = {"raise"}
   IterSingleLine = FALSE
   Emit = FALSE
   Modes = {"byname"}
@@ -19,6 +20,7 @@ CONSTANTS
   IterYieldsAll = TRUE
   FdKinds = {"same"}
   TrustFd = FALSE
+  CommitAfterRead = TRUE
 SPECIFICATION Spec
 INVARIANT TypeOK
 INVARIANT IndexExact
